@@ -23,6 +23,9 @@ import (
 type copyMemo struct {
 	ptrs map[*value]*value
 	maps map[*gomap]*gomap
+	// stripZone: the encoding being modelled stores instants only (protobuf
+	// timestamps are UTC); encoding/json keeps the zone offset of a time.Time
+	stripZone bool
 }
 
 func newCopyMemo() *copyMemo {
@@ -35,6 +38,11 @@ func deepCopy(v value, memo map[*value]*value) value {
 
 func deepCopyM(v value, memo *copyMemo) value {
 	switch v := v.(type) {
+	case timeVal:
+		if memo.stripZone {
+			v.zone = ""
+		}
+		return v
 	case *value:
 		if v == nil {
 			return v
@@ -182,8 +190,46 @@ func registerSDK(e *Engine) {
 }
 
 func mkBlob(kind string, msg iface) []value {
-	memo := map[*value]*value{}
-	return []value{blobByte{kind: kind, v: deepCopy(msg.v, memo), t: msg.t}}
+	memo := &copyMemo{ptrs: map[*value]*value{}, maps: map[*gomap]*gomap{}, stripZone: kind != "gojson"}
+	return []value{blobByte{kind: kind, v: deepCopyM(msg.v, memo), t: msg.t}}
+}
+
+// localZone is the zone time.Local denotes on this path: the value of TZ in the
+// modelled process environment ("" = UTC, which is also what the sandbox runs in).
+func localZone(fr *frame) string {
+	if explicit, _ := fr.p.hostState["env-explicit"].(bool); !explicit {
+		return ""
+	}
+	v, ok := fr.p.hostState["env:TZ"]
+	if !ok {
+		return ""
+	}
+	pair := v.([2]value)
+	if set, _ := pair[1].(bool); !set {
+		return ""
+	}
+	s, ok := pair[0].(string)
+	if !ok {
+		abort("unmodelled", "symbolic TZ")
+	}
+	if s == "UTC" || s == "Etc/UTC" {
+		return ""
+	}
+	if _, err := time.LoadLocation(s); err != nil {
+		return "" // Go falls back to UTC for an unknown zone
+	}
+	return s
+}
+
+func zoneOf(name string) *time.Location {
+	if name == "" {
+		return time.UTC
+	}
+	loc, err := time.LoadLocation(name)
+	if err != nil {
+		return time.UTC
+	}
+	return loc
 }
 
 func nilErr() value { return iface{} }
@@ -597,20 +643,29 @@ func registerTime(e *Engine) {
 		// wall clock: an arbitrary instant (2001..2100), see C08
 		ns := fr.p.newInput("wallclock@"+wallClockSite(fr), SInt, new(big.Int).Mul(big.NewInt(1_000_000_000), big.NewInt(1_000_000_000)), new(big.Int).Mul(big.NewInt(4_102_444_800), big.NewInt(1_000_000_000)))
 		fr.p.note("time.Now() called from %s", fr.caller.fn)
-		return timeVal{ns: ns}
+		return timeVal{ns: ns, zone: localZone(fr)}
 	})
+	// Unix / UnixMilli / Now / Local() yield times in the process-local zone
+	inLocal := func(fr *frame, t timeVal) timeVal {
+		t.zone = localZone(fr)
+		return t
+	}
 	e.reg("time.Unix", func(fr *frame, args []value) value {
 		s, _ := toTerm(args[0])
 		n, _ := toTerm(args[1])
-		return mkTime(Add(Mul(s, IntConst64(1_000_000_000)), n))
+		return inLocal(fr, mkTime(Add(Mul(s, IntConst64(1_000_000_000)), n)))
 	})
 	e.reg("time.UnixMilli", func(fr *frame, args []value) value {
 		s, _ := toTerm(args[0])
-		return mkTime(Mul(s, IntConst64(1_000_000)))
+		return inLocal(fr, mkTime(Mul(s, IntConst64(1_000_000))))
 	})
 	ident := func(fr *frame, args []value) value { return args[0] }
-	e.reg(tm+"UTC", ident)
-	e.reg(tm+"Local", ident)
+	e.reg(tm+"UTC", func(fr *frame, args []value) value {
+		t := args[0].(timeVal)
+		t.zone = ""
+		return t
+	})
+	e.reg(tm+"Local", func(fr *frame, args []value) value { return inLocal(fr, args[0].(timeVal)) })
 	e.reg(tm+"Round", ident)
 	e.reg(tm+"Truncate", ident)
 	e.reg(tm+"In", ident)
@@ -633,7 +688,9 @@ func registerTime(e *Engine) {
 	})
 	e.reg(tm+"Add", func(fr *frame, args []value) value {
 		d, _ := toTerm(args[1])
-		return mkTime(Add(timeTerm(args[0]), d))
+		r := mkTime(Add(timeTerm(args[0]), d))
+		r.zone = args[0].(timeVal).zone
+		return r
 	})
 	e.reg(tm+"Sub", func(fr *frame, args []value) value {
 		d := Sub(timeTerm(args[0]), timeTerm(args[1]))
@@ -653,12 +710,12 @@ func registerTime(e *Engine) {
 	e.reg(tm+"Format", func(fr *frame, args []value) value {
 		t := args[0].(timeVal)
 		if n, ok := t.ns.(int64); ok && !t.zero {
-			return time.Unix(0, n).UTC().Format(args[1].(string))
+			return time.Unix(0, n).In(zoneOf(t.zone)).Format(args[1].(string))
 		}
 		if t.zero {
 			return time.Time{}.Format(args[1].(string))
 		}
-		return &SymStr{parts: []strPart{{kind: "s", t: App("timefmt", SStr, timeTerm(t))}}}
+		return &SymStr{parts: []strPart{{kind: "s", t: App("timefmt"+t.zone, SStr, timeTerm(t))}}}
 	})
 	e.reg(tm+"AddDate", func(fr *frame, args []value) value {
 		t := args[0].(timeVal)
@@ -666,7 +723,7 @@ func registerTime(e *Engine) {
 		m, ok2 := args[2].(int64)
 		d, ok3 := args[3].(int64)
 		if n, ok := t.ns.(int64); ok && ok1 && ok2 && ok3 && !t.zero {
-			return timeVal{ns: time.Unix(0, n).UTC().AddDate(int(y), int(m), int(d)).UnixNano()}
+			return timeVal{ns: time.Unix(0, n).In(zoneOf(t.zone)).AddDate(int(y), int(m), int(d)).UnixNano(), zone: t.zone}
 		}
 		// symbolic instant or offsets: calendar arithmetic abstracted by an
 		// uninterpreted function of (instant, years, months, days), monotone for
@@ -677,7 +734,7 @@ func registerTime(e *Engine) {
 		r := App("adddate", SInt, timeTerm(t), yt, mt, dt)
 		nonneg := And(Ge(yt, IntConst64(0)), Ge(mt, IntConst64(0)), Ge(dt, IntConst64(0)))
 		fr.p.assume(Implies(nonneg, Ge(r, timeTerm(t))))
-		return timeVal{ns: r}
+		return timeVal{ns: r, zone: t.zone}
 	})
 	e.reg("(time.Duration).String", func(fr *frame, args []value) value {
 		if n, ok := args[0].(int64); ok {
